@@ -64,58 +64,60 @@ func checkC12(P *Prog, r *Result) {
 	// ---- callback-arg ----
 	n := 0
 	for _, nf := range P.nodeFuncs() {
-		all := append([]*ssa.Function{nf}, nf.AnonFuncs...)
 		cnt := map[string]int{}
-		for _, fn := range all {
+		for _, u := range P.nodeUnits(nf) {
+			fn := u.fn
 			r.sawFunc(fname(fn))
-			ctxp := P.nodeCtxParam(fn)
-			eachInstr(fn, func(_ *ssa.BasicBlock, _ int, in ssa.Instruction) {
-				ci := callOf(in)
-				role := P.callbackRole(ci)
-				if role == "" {
-					return
-				}
-				n++
-				r.CallSites++
-				cnt[role]++
-				c := fmt.Sprintf("%s#%s@%d", fname(nf), role, cnt[role])
-				args := ci.args()
-				if len(args) != 2 {
-					r.undecided("C12/callback-arg", c, P.ipos(in), "callback call with unexpected arity")
-					return
-				}
-				// context argument
-				if ctxp == nil || cvi(args[1]) != ctxp {
-					r.bad("C12/callback-arg", c, P.ipos(in), "the callback does not receive the node's own context: ctx.Get / ctx.AddIssue would act on another node or execution")
-					return
-				}
-				// value argument
-				kind := R.kindOfFunc(nf)
-				wantInput := role == "preprocess" && R.Dispatch[nf] == "process"
-				var classes []string
-				okArg := true
-				for _, rt := range P.rootsOf(args[0]) {
-					cl := P.classifyIn(fn, rt)
-					classes = append(classes, fmt.Sprintf("%s [%s]", cl.class, cl.rt))
-					switch {
-					case wantInput && cl.class == mcInput:
-					case !wantInput && cl.class == mcDest:
-					default:
+			ctxp := P.nodeCtxParam(nf)
+			u.with(func() {
+				eachInstr(fn, func(_ *ssa.BasicBlock, _ int, in ssa.Instruction) {
+					ci := callOf(in)
+					role := P.callbackRole(ci)
+					if role == "" {
+						return
+					}
+					n++
+					r.CallSites++
+					cnt[role]++
+					c := fmt.Sprintf("%s#%s@%d", fname(nf), role, cnt[role])
+					args := ci.args()
+					if len(args) != 2 {
+						r.undecided("C12/callback-arg", c, P.ipos(in), "callback call with unexpected arity")
+						return
+					}
+					// context argument
+					if ctxp == nil || cvi(args[1]) != ctxp {
+						r.bad("C12/callback-arg", c, P.ipos(in), "the callback does not receive the node's own context: ctx.Get / ctx.AddIssue would act on another node or execution")
+						return
+					}
+					// value argument
+					kind := R.kindOfFunc(nf)
+					wantInput := role == "preprocess" && R.Dispatch[nf] == "process"
+					var classes []string
+					okArg := true
+					for _, rt := range P.rootsOf(args[0]) {
+						cl := P.classifyIn(fn, rt)
+						classes = append(classes, fmt.Sprintf("%s [%s]", cl.class, cl.rt))
+						switch {
+						case wantInput && cl.class == mcInput:
+						case !wantInput && cl.class == mcDest:
+						default:
+							okArg = false
+						}
+					}
+					if len(classes) == 0 {
 						okArg = false
 					}
-				}
-				if len(classes) == 0 {
-					okArg = false
-				}
-				if okArg {
-					what := "the node's destination pointer (ValPtr)"
-					if wantInput {
-						what = "the input data (Preprocess's contract in Parse)"
+					if okArg {
+						what := "the node's destination pointer (ValPtr)"
+						if wantInput {
+							what = "the input data (Preprocess's contract in Parse)"
+						}
+						r.ok("C12/callback-arg", c, P.ipos(in), fmt.Sprintf("%s callback of %s receives %s and the node's own context", role, kind, what))
+					} else {
+						r.bad("C12/callback-arg", c, P.ipos(in), fmt.Sprintf("%s callback is not called with the node's own destination value: argument derives from %s; under a slice or pointer in Validate this is nil", role, strings.Join(uniqSorted(classes), "; ")))
 					}
-					r.ok("C12/callback-arg", c, P.ipos(in), fmt.Sprintf("%s callback of %s receives %s and the node's own context", role, kind, what))
-				} else {
-					r.bad("C12/callback-arg", c, P.ipos(in), fmt.Sprintf("%s callback is not called with the node's own destination value: argument derives from %s; under a slice or pointer in Validate this is nil", role, strings.Join(uniqSorted(classes), "; ")))
-				}
+				})
 			})
 		}
 	}
@@ -217,22 +219,24 @@ func checkC12(P *Prog, r *Result) {
 	for _, nf := range P.nodeFuncs() {
 		// does this node have a postTransforms role?
 		hasPT := false
-		var ptClosures []*ssa.Function
-		all := append([]*ssa.Function{nf}, nf.AnonFuncs...)
-		for _, fn := range all {
-			eachInstr(fn, func(_ *ssa.BasicBlock, _ int, in ssa.Instruction) {
-				if P.callbackRole(callOf(in)) == "postTransform" {
-					hasPT = true
-					found := false
-					for _, c := range ptClosures {
-						if c == fn {
-							found = true
+		var ptUnits []*nodeUnit
+		for _, u := range P.nodeUnits(nf) {
+			u := u
+			u.with(func() {
+				eachInstr(u.fn, func(_ *ssa.BasicBlock, _ int, in ssa.Instruction) {
+					if P.callbackRole(callOf(in)) == "postTransform" {
+						hasPT = true
+						found := false
+						for _, c := range ptUnits {
+							if c == u {
+								found = true
+							}
+						}
+						if !found {
+							ptUnits = append(ptUnits, u)
 						}
 					}
-					if !found {
-						ptClosures = append(ptClosures, fn)
-					}
-				}
+				})
 			})
 		}
 		if !hasPT {
@@ -240,26 +244,36 @@ func checkC12(P *Prog, r *Result) {
 		}
 		c := fname(nf)
 		var problems []string
-		if len(ptClosures) != 1 || ptClosures[0] == nf {
-			problems = append(problems, "post-transforms are not run from exactly one deferred closure")
+		if len(ptUnits) != 1 || ptUnits[0].fn == nf {
+			problems = append(problems, "post-transforms are not run from exactly one deferred closure or helper")
 		} else {
-			cl := ptClosures[0]
-			// exactly one defer of cl, in the entry block
+			pu := ptUnits[0]
+			cl := pu.fn
+			// the runner is deferred exactly once by the node function, in its entry block
 			nDefer := 0
 			eachInstr(nf, func(b *ssa.BasicBlock, _ int, in ssa.Instruction) {
 				if df, ok := in.(*ssa.Defer); ok {
+					isRunner := false
 					if mc, ok := df.Call.Value.(*ssa.MakeClosure); ok && mc.Fn == cl {
+						isRunner = true
+					}
+					if ci := callOf(df); ci != nil && ci.static == cl {
+						isRunner = true
+					}
+					if isRunner {
 						nDefer++
 						if b != nf.Blocks[0] {
-							problems = append(problems, "the post-transform closure is not deferred in the entry block: some paths skip it or register it more than once")
+							problems = append(problems, "the post-transform runner is not deferred in the entry block: some paths skip it or register it more than once")
 						}
 					}
 				}
 			})
-			if nDefer != 1 {
-				problems = append(problems, fmt.Sprintf("%d defers of the post-transform closure (expected 1)", nDefer))
+			if nDefer != 1 || !pu.deferred || pu.parent == nil || pu.parent.fn != nf {
+				problems = append(problems, fmt.Sprintf("%d defers of the post-transform runner by the node function (expected 1)", nDefer))
 			}
-			problems = append(problems, P.ptClosureProblems(cl)...)
+			pu.with(func() {
+				problems = append(problems, P.ptClosureProblems(cl)...)
+			})
 		}
 		if len(problems) > 0 {
 			r.bad("C12/posttransform-shape", c, P.pos(nf.Pos()), strings.Join(problems, "; "))
